@@ -4,12 +4,14 @@ mod elfbuild;
 mod gen;
 mod gen2;
 mod gen3;
+mod gen4;
 mod oracle;
 mod oracle2;
 mod oracle3;
 mod prng;
 mod run;
 mod show;
+mod stream;
 
 use std::io::{BufRead, Write};
 
@@ -89,6 +91,11 @@ fn main() {
                 "bigfile" => gen3::gen_bigfile(&mut rng, n, thorough),
                 "prefix" => gen3::gen_prefix(&mut rng, n, thorough),
                 "sweep" => gen3::gen_sweep(&mut rng, n, thorough),
+                "stream" => gen4::gen_stream(&mut rng, n, thorough),
+                "streamfault" => gen4::gen_streamfault(&mut rng, n, thorough),
+                "bigstream" => gen4::gen_bigstream(&mut rng, n, thorough),
+                "sprefix" => gen4::gen_sprefix(&mut rng, n, thorough),
+                "streamhdr" => gen4::gen_streamhdr(&mut rng, n, thorough),
                 _ => {
                     eprintln!("unknown stream {}", stream);
                     std::process::exit(2);
